@@ -1,32 +1,37 @@
 (* OCaml driver for the extracted race decision procedure (coq/Workers/Race.v, proved exact in
    RaceProofs.v).  Input (stdin): one event per line
-     A <tid> <loc> <w:0|1> <atomic:0|1>    loc:   q<t> mailbox  f<t> notifier flag  s search  x quitFlag  p params  o ponder
+     A <tid> <loc> <w:0|1> <kind:p|a|r>    loc:   q<t> mailbox  f<t> notifier flag  s search  x quitFlag  p search parameters
+                                                  o ponder/infinite  d pendingOptions  e optionsSetFinished  v option values  g TT geometry/generation
      Q <tid> <mutex>    acquire             mutex: q<t> f<t> e
      R <tid> <mutex>    release
-   Output: "search=<b> quit=<b> params=<b> guarded=<b|skipped> events=<n>"                         *)
+   argv: the location classes to decide, e.g. "p v g" (each letter as above; q and f stand for all mailboxes / flags)
+   Output: "<class>=<true|false> ... events=<n>"                                                          *)
 open Race_model
 let rec nat_of_int n = if n <= 0 then O else S (nat_of_int (n - 1))
+let num s = nat_of_int (int_of_string (String.sub s 1 (String.length s - 1)))
 let loc_of s = match s.[0] with
-  | 'q' -> LQueue (nat_of_int (int_of_string (String.sub s 1 (String.length s - 1))))
-  | 'f' -> LFlag (nat_of_int (int_of_string (String.sub s 1 (String.length s - 1))))
-  | 's' -> LSearch | 'x' -> LQuit | 'p' -> LParams | _ -> LPonder
-let mutex_of s = match s.[0] with
-  | 'q' -> MQ (nat_of_int (int_of_string (String.sub s 1 (String.length s - 1))))
-  | 'f' -> MN (nat_of_int (int_of_string (String.sub s 1 (String.length s - 1))))
-  | _ -> ME
+  | 'q' -> LQueue (num s) | 'f' -> LFlag (num s)
+  | 's' -> LSearch | 'x' -> LQuit | 'p' -> LParams | 'o' -> LPonder
+  | 'd' -> LPend | 'e' -> LFin | 'v' -> LOpt | _ -> LTT
+let mutex_of s = match s.[0] with 'q' -> MQ (num s) | 'f' -> MN (num s) | _ -> ME
+let kind_of = function "a" -> Atomic | "r" -> Relaxed | _ -> Plain
+let cls c (l : loc) = match c, l with
+  | 'q', LQueue _ | 'f', LFlag _ | 's', LSearch | 'x', LQuit | 'p', LParams | 'o', LPonder
+  | 'd', LPend | 'e', LFin | 'v', LOpt | 'g', LTT -> true
+  | _ -> false
 let () =
   let evs = ref [] in
   (try while true do
     let line = input_line stdin in
     match List.filter (fun s -> s <> "") (String.split_on_char ' ' line) with
-    | ["A"; t; l; w; a] -> evs := Acc (nat_of_int (int_of_string t), loc_of l, w = "1", a = "1") :: !evs
+    | ["A"; t; l; w; k] -> evs := Acc (nat_of_int (int_of_string t), loc_of l, w = "1", kind_of k) :: !evs
     | ["Q"; t; m] -> evs := Acq (nat_of_int (int_of_string t), mutex_of m) :: !evs
     | ["R"; t; m] -> evs := Rel (nat_of_int (int_of_string t), mutex_of m) :: !evs
     | _ -> ()
   done with End_of_file -> ());
   let tr = List.rev !evs in
-  let n = List.length tr in
-  let full = Array.length Sys.argv > 1 && Sys.argv.(1) = "--guarded" in
-  Printf.printf "search=%b quit=%b params=%b guarded=%s events=%d\n"
-    (raceb_on is_search tr) (raceb_on is_quit tr) (raceb_on is_params tr)
-    (if full then string_of_bool (raceb_on guarded tr) else "skipped") n
+  for i = 1 to Array.length Sys.argv - 1 do
+    let c = Sys.argv.(i).[0] in
+    Printf.printf "%c=%b " c (raceb_on (cls c) tr)
+  done;
+  Printf.printf "events=%d\n" (List.length tr)
